@@ -46,6 +46,24 @@ def check_tree(item):
     return out
 
 
+def undeclared_names(value, text):
+    """declared LaTeX display names (of the library's symbols and functions occurring in `value`) that are absent from the rendering;
+    braces and blanks are ignored on both sides (q_1 is printed q_{1})"""
+    from symplyphysics.core.symbols.symbols import DimensionSymbol
+    if not isinstance(value, sp.Basic):
+        return []
+    norm = lambda z: z.replace(" ", "").replace("{", "").replace("}", "")
+    t = norm(text)
+    leaves = {a for a in value.atoms(sp.Symbol) if isinstance(a, DimensionSymbol)}
+    leaves |= {a.func for a in value.atoms(sp.core.function.AppliedUndef) if isinstance(a.func, DimensionSymbol)}
+    out = []
+    for leaf in leaves:
+        dl = getattr(leaf, "display_latex", None)
+        if dl and norm(dl) not in t:
+            out.append(dl)
+    return sorted(out)
+
+
 def check_file(relpath):
     from symplyphysics.docs.parse import LawDirectiveType
     out = []
@@ -70,6 +88,12 @@ def check_file(relpath):
             out.append({"name": name, "verdict": "candidate", "why": f"ill-formed LaTeX: {wf}", "file": relpath, "member": m.name, "text": text, "vals": None})
             continue
         out.append({"name": name + ":wellformed", "verdict": "discharged", "trivial": True})
+        missing = undeclared_names(m.value, text)
+        if missing:
+            out.append({"name": name, "verdict": "candidate", "why": f"declared LaTeX display names {missing} do not appear in the rendering", "file": relpath, "member": m.name,
+                        "text": text, "vals": None})
+            continue
+        out.append({"name": name + ":display-names", "verdict": "discharged", "trivial": True})
         if isinstance(m.value, (list, tuple)):
             out.append({"name": name, "verdict": "unencoded", "why": "list-valued member"})
             continue
@@ -121,7 +145,7 @@ relpath, member = {file!r}, {member!r}
 res = [r for r in c18.check_file(relpath) if r.get("member") == member and r["verdict"] == "candidate"]
 for r in res: print(r["name"], "rendering:", r.get("text"), "->", r["why"], r.get("vals"))
 if not res: sys.exit(0)
-if any("ill-formed" in r["why"] or "raised" in r["why"] or "adjacent numerals" in r["why"] for r in res):
+if any("ill-formed" in r["why"] or "raised" in r["why"] or "adjacent numerals" in r["why"] or "display names" in r["why"] for r in res):
     print("REPRODUCED"); sys.exit(1)
 members, _ = docsrc.members_of(relpath)
 m = [x for x in members if x.name == member][0]
